@@ -95,8 +95,9 @@ def make_inner(c):
 
 def judge(padded: str, bare: str, W, Hh, sides, fill, cols, rows, y0, profile, what, strict_fill=True, animated=False):
     """Screen A (padded at (0,y0)) vs screen B (bare at (left, y0+top))."""
-    from ..vt import DEFAULT_SGR, Screen, anchor
+    from ..vt import DEFAULT_SGR, Screen, anchor, cwidth
 
+    glyph = "".join(ch for ch in fill if cwidth(ch) > 0)  # what the terminal model keeps of a one-column fill string
     left, top, right, bottom = sides
     Wp, Hp = left + W + right, top + Hh + bottom
     if Wp > cols or y0 + Hp > rows:
@@ -133,7 +134,7 @@ def judge(padded: str, bare: str, W, Hh, sides, fill, cols, rows, y0, profile, w
                     if A.touched[y][x] or a[0] != "~":
                         raise Violation(f"{what}: padding cell {(x, y)} modified although fill is empty", {**sig, "clause": "fill"})
                 else:
-                    if a != (fill, None, None, frozenset(), None):
+                    if a != (glyph, None, None, frozenset(), None):
                         raise Violation(f"{what}: padding cell {(x, y - y0)} is {a}, expected fill {fill!r} with default "
                                         f"attributes (sides {sides}, render {W}x{Hh})", {**sig, "clause": "fill"})
             else:
@@ -161,7 +162,7 @@ def note(rec, api, kind, sides, fill, ha, va, odd):
 
 # ------------------------------------------------------------------------------ clause: pad
 
-FILLS = [" ", " ", "#", "", "·"]
+FILLS = [" ", " ", "#", "", "·", "e\u0301"]  # the last: one column made of two code points (base + combining mark)
 
 
 @st.composite
